@@ -108,7 +108,8 @@ class GraphLeg(object):
             perm = draw(st.permutations(list(range(n))))
             return {"nodes": nodes, "perm": list(perm), "repeated": draw(st.booleans()),
                     "file_db": draw(st.booleans()), "split": draw(st.sampled_from([0, 0, 1, 2, n // 2])),
-                    "mixed": draw(st.integers(0, 4)) == 0, "tail_sep": draw(st.booleans())}
+                    "mixed": draw(st.integers(0, 4)) == 0, "tail_sep": draw(st.booleans()),
+                    "other_handle": draw(st.integers(0, 2)) == 0}
 
         return case()
 
@@ -162,6 +163,7 @@ class GraphLeg(object):
             lines = [tm.render_line(recs[j], d) for j in case["perm"]]
         path = ctx.write("g.gff3", "\n".join(lines) + "\n")
         dbfn = ctx.path("g.db") if case["file_db"] else ":memory:"
+        keep_handle = False
         k = case.get("split")
         if k and 0 < k < len(lines):
             # the tail of the file arrives later through update(): parents may be supplied after their children
@@ -175,10 +177,22 @@ class GraphLeg(object):
             db = gffutils.create_db(p1, dbfn)
             for x in list(db.all_features())[:3]:  # look at it before it changes
                 list(db.children(x.id))
-            db.update(p2, make_backup=False)
+            if case.get("other_handle") and case["file_db"]:
+                # the tail is written through a second handle on the same file, after this handle has answered
+                # queries about every feature; this handle (kept open, not reopened) must then see the new relatives
+                for x in list(db.all_features()):
+                    list(db.children(x.id))
+                    list(db.parents(x.id))
+                writer = gffutils.FeatureDB(dbfn)
+                writer.update(p2, make_backup=False)
+                writer.conn.close()
+                keep_handle = True
+                ctx.count("tail written through a second handle")
+            else:
+                db.update(p2, make_backup=False)
         else:
             db = gffutils.create_db(path, dbfn)
-        if case["file_db"]:
+        if case["file_db"] and not keep_handle:
             db.conn.close()
             db = gffutils.FeatureDB(dbfn)
         c1, c2, p1, p2 = reference(case)
@@ -258,4 +272,83 @@ class GraphLeg(object):
         return None
 
 
-LEGS = [GraphLeg()]
+class LargeLeg(object):
+    """Files of about a thousand and more features (gene / mRNA / exon trees in a generated line order), imported with
+    generated verbose / checklines settings: the whole relation table must equal the reference closure."""
+    kind = "hyp"
+    name = "large"
+    budget = {"quick": (4, 2), "thorough": (16, 8)}
+
+    def strategy(self):
+        from hypothesis import strategies as st
+
+        return st.fixed_dictionaries({
+            "genes": st.sampled_from([150, 334, 340, 700]),
+            "shape": st.lists(st.tuples(st.integers(1, 2), st.integers(1, 2)), min_size=8, max_size=8),
+            "order": st.sampled_from(["top-down", "bottom-up", "reversed-genes"]),
+            "verbose": st.sampled_from([False, True, True]),
+            "file_db": st.booleans(),
+            "split": st.booleans(),
+        })
+
+    def _build(self, case):
+        lines, rel = [], set()
+        blocks = []
+        for g in range(case["genes"]):
+            nm, ne = case["shape"][g % len(case["shape"])]
+            gid = "g%d" % g
+            blk = [("gene", gid, None)]
+            for m in range(nm):
+                mid = "%s.m%d" % (gid, m)
+                blk.append(("mRNA", mid, gid))
+                rel.add((gid, mid, 1))
+                for e in range(ne):
+                    eid = "%s.e%d" % (mid, e)
+                    blk.append(("exon", eid, mid))
+                    rel.add((mid, eid, 1))
+                    rel.add((gid, eid, 2))
+            blocks.append(blk)
+        if case["order"] == "bottom-up":
+            blocks = [list(reversed(b)) for b in blocks]
+        elif case["order"] == "reversed-genes":
+            blocks = list(reversed(blocks))
+        pos = 1
+        for b in blocks:
+            for ft, fid, par in b:
+                lines.append("chr1\tsrc\t%s\t%d\t%d\t.\t+\t.\tID=%s%s" % (ft, pos, pos + 50, fid, (";Parent=" + par) if par else ""))
+                pos += 7
+        return lines, rel
+
+    def classify(self, case):
+        n = len(self._build(case)[0])
+        return n >= 1000, ["features>=1000" if n >= 1000 else "features<1000", "verbose=%s" % case["verbose"], "order=" + case["order"]]
+
+    def check(self, case, ctx):
+        import gffutils
+
+        lines, rel = self._build(case)
+        dbfn = ctx.path("big.db") if case["file_db"] else ":memory:"
+        if case["split"]:
+            k = len(lines) // 2
+            db = gffutils.create_db(ctx.write("big1.gff3", "\n".join(lines[:k]) + "\n"), dbfn, verbose=case["verbose"])
+            db.update(ctx.write("big2.gff3", "\n".join(lines[k:]) + "\n"), make_backup=False, verbose=case["verbose"])
+        else:
+            db = gffutils.create_db(ctx.write("big.gff3", "\n".join(lines) + "\n"), dbfn, verbose=case["verbose"])
+        got = set(tuple(r) for r in db.execute("SELECT parent, child, level FROM relations"))
+        if got != rel:
+            missing, extra = sorted(rel - got), sorted(got - rel)
+            return Failure("%d features (verbose=%r): relation table misses %d rows (first %r) and has %d unexpected (first %r)"
+                           % (len(lines), case["verbose"], len(missing), missing[:2], len(extra), extra[:2]),
+                           sig={"kind": "relatives-large", "missing": bool(missing), "extra": bool(extra)})
+        ids = [l.split("ID=")[1].split(";")[0] for l in lines]
+        for fid in (ids[0], ids[len(ids) // 2], ids[-1], ids[-2], ids[-3]):
+            kids = set(f.id for f in db.children(fid))
+            want = set(c for p_, c, _ in rel if p_ == fid)
+            if kids != want:
+                return Failure("children(%r) = %r, reference %r (%d features)" % (fid, sorted(kids), sorted(want), len(lines)),
+                               sig={"kind": "relatives", "method": "children", "level": None})
+        ctx.count("features in large files", len(lines))
+        return None
+
+
+LEGS = [GraphLeg(), LargeLeg()]
